@@ -1,6 +1,7 @@
 package rules
 
 import (
+	"crypto/sha256"
 	"fmt"
 	"go/constant"
 	"regexp"
@@ -194,6 +195,25 @@ func tmplTableRule(c *core.Ctx, g tmplGroup) {
 func init() {
 	addRule("C18", &core.Rule{ID: "C18.lua-verdict", Floor: 5, Run: c18LuaVerdict,
 		Doc: "rootfs/etc/lua/auth-request.lua (the action the template calls as lua.auth-intercept): auth_request starts by setting txn.auth_response_successful to false; the only place that sets it to true is the branch `if response_ok then`; response_ok is assigned once, as `200 <= response.status_code and response.status_code < 300`; the action names the template uses are registered by the script. Decided on the token stream of the script with comments and white space removed (Lua is not parsed: a restructured script raises an alarm that has to be reviewed)."})
+}
+
+// The HTTP client library the authentication script makes its sub-request with is a vendored copy
+// (github.com/haproxytech/haproxy-lua-http): what it returns as status_code is what auth-request.lua
+// compares. It is not parsed; its content with comments and white space removed is the reviewed one.
+const luaHTTPLibrarySum = "34b8a335edab8a488a213b6cfa8c03dd3c54191fa5343395e04e78b18b119fb7"
+
+func init() {
+	addRule("C18", &core.Rule{ID: "C18.lua-http-library", Floor: 1, Run: func(c *core.Ctx) {
+		const rel = "rootfs/etc/lua/haproxy-lua-http.lua"
+		b, err := c.ReadRepoFile(rel)
+		if err != nil {
+			c.MissingAnchor(rel + ": " + err.Error())
+			return
+		}
+		sum := fmt.Sprintf("%x", sha256.Sum256([]byte(strings.Join(luaLines(string(b)), "\n"))))
+		c.Check(sum == luaHTTPLibrarySum, "vendored HTTP client library of the authentication script is the reviewed copy", rel, "sha256 of the statements "+sum[:12]+"…",
+			"the statements of the library changed (sha256 "+sum[:12]+"…, reviewed "+luaHTTPLibrarySum[:12]+"…): the status code and headers of the authentication response are read through it")
+	}, Doc: "rootfs/etc/lua/haproxy-lua-http.lua, the vendored HTTP client the authentication script (auth-request.lua) sends its sub-request with and reads status_code and headers from, has the reviewed content (sha256 over its lines with comments and white space removed). A vendored third-party file is identified by its content; it is not parsed. Stated plainly: this is a frozen file, chosen because the alternative is to trust 800 lines the property depends on without looking at them."})
 }
 
 func luaLines(src string) []string {
